@@ -124,24 +124,49 @@ def _s(b):
 TOPOPS = ("items", "itemstop", "fullitems", "trim")
 
 
+def _view(b, m):
+    """memoryview forms of the bytes b: whole buffer / a SLICE cut out of a larger bytes frame / a slice of a bytearray"""
+    if m == 0:
+        return memoryview(b)
+    if m == 1:
+        frame = b"<hdr>" + b + b".trailer-of-the-frame"
+        return memoryview(frame)[5:5 + len(b)]
+    frame = bytearray(b"\x00\x01" + b + b"\xfftail")
+    return memoryview(frame)[2:2 + len(b)]
+
+
+NKFORMS = 9
+
+
 def kform(k, j, sep="."):
-    """the same key in another accepted form: bytes / str / memoryview / tuple of parts joined by the separator"""
-    m = j % 4
+    """the same key in every argument form the API accepts (the model / oracle stay keyed by the canonical bytes):
+    bytes, str, bytearray, memoryview (whole buffer, slice of a larger bytes, slice of a bytearray), tuple of str parts,
+    list of parts alternating str / bytes, tuple of memoryview-free bytes parts"""
+    m = j % NKFORMS
     if m == 1:
         return k.decode()
     if m == 2:
-        return memoryview(k)
-    if m == 3:
-        return tuple(k.decode().split(sep))
+        return bytearray(k)
+    if m in (3, 4, 5):
+        return _view(k, m - 3)
+    parts = k.decode().split(sep)
+    if m == 6:
+        return tuple(parts)
+    if m == 7:
+        return [p if i % 2 else p.encode() for i, p in enumerate(parts)]
+    if m == 8:
+        return tuple(p.encode() for p in parts)
     return k
 
 
 def vform(v, j):
-    m = (j // 4) % 3
+    """the same value as str / bytes / memoryview (whole, slice of bytes, slice of bytearray).  A bytearray itself is not an
+    accepted value form (annotated str | bytes | memoryview; unhashable, so IoSetSuber raises TypeError on it): not generated"""
+    m = (j // 2) % 5
     if m == 1:
         return v              # bytes
-    if m == 2:
-        return memoryview(v)
+    if m in (2, 3, 4):
+        return _view(v, m - 2)
     return v.decode()
 
 
